@@ -91,7 +91,32 @@ def translate(repo: str):
     v = inits[0].value
     append_atomic = append_atomic and isinstance(v, ast.Call) and isinstance(v.func, ast.Name) and v.func.id == "defaultdict" \
         and len(v.args) == 1 and isinstance(v.args[0], ast.Name) and v.args[0].id == "list"
-    f = {"mem_history_append_atomic": append_atomic, "history_after_transition": after, "history_uses_returned_record": uses, "history_names_requester": names_req,
+    # the flush (wait_for_all_async_operations) joins every writer that was ever tracked: `invocation_threads` only grows by
+    # `.append(thread)` in add_history / add_histories and is never rebuilt, filtered or shrunk (a tracked thread that has not
+    # started yet, or one that is slow, must still be waited for); the joins are unbounded (no timeout argument)
+    stree = ast.parse(open(f"{repo}/pynenc/state_backend/base_state_backend.py").read())
+    tracked = True
+    for node in ast.walk(stree):
+        if isinstance(node, (ast.Assign, ast.AugAssign, ast.AnnAssign)):
+            tgts = node.targets if isinstance(node, ast.Assign) else [node.target]
+            for t in tgts:
+                if isinstance(t, ast.Subscript) and "invocation_threads" in ast.dump(t.value):
+                    tracked = False                      # self.invocation_threads[k] = ...   (a rebuilt list)
+        if isinstance(node, ast.Delete) and any("invocation_threads" in ast.dump(t) for t in node.targets):
+            tracked = False
+        if isinstance(node, ast.Call) and isinstance(node.func, ast.Attribute) and node.func.attr in ("pop", "remove", "clear", "popitem") \
+                and "invocation_threads" in ast.dump(node.func.value):
+            tracked = False
+    for fn_name in ("wait_for_invocation_async_operations", "wait_for_all_async_operations"):
+        fn = _method(stree, "BaseStateBackend", fn_name)
+        for c in ast.walk(fn):
+            if isinstance(c, ast.Call) and isinstance(c.func, ast.Attribute) and c.func.attr == "join" and (c.args or c.keywords):
+                tracked = False                          # a bounded join may return before the writer has run
+    appends = [c for c in ast.walk(stree) if isinstance(c, ast.Call) and isinstance(c.func, ast.Attribute) and c.func.attr == "append"
+               and "invocation_threads" in ast.dump(c.func.value)]
+    if len(appends) < 2:
+        tracked = False
+    f = {"history_writers_stay_tracked": tracked, "mem_history_append_atomic": append_atomic, "history_after_transition": after, "history_uses_returned_record": uses, "history_names_requester": names_req,
          "registration_writes_history": regok}
     lines = ["(* GENERATED by harness/translate/history_facts.py from base_orchestrator.py *)", ""]
     for k, v in f.items():
